@@ -78,7 +78,7 @@ func checkC19(r *Run) error {
 	corpus := gen.HarvestCorpus(r.Env.Repo)
 	st := &c19Stats{tuples: map[string]bool{}, faultsFired: map[string]int{}, faultsConf: map[string]int{}, clause: map[string]int{},
 		families: map[string]int{}, optShapes: map[string]int{}, probes: map[string]int{}, leftovers: map[string]int{}}
-	roundSize, sweepN := 320, 4
+	roundSize, sweepN := 240, 4
 	if r.Tier == "thorough" {
 		roundSize, sweepN = 480, 14
 	}
@@ -419,14 +419,23 @@ func c19Gen(r *Run, rng *gen.Rng, corpus []string) *c19Inv {
 	// invalid vectors
 	if rng.Chance(22) {
 		inv.Valid = false
-		switch rng.Intn(9) {
+		switch rng.Intn(11) {
 		case 0:
 			args = append(args, "--frobnicate", "1")
 			inv.Why = "unknown switch"
-		case 1:
+		case 1, 9, 10:
 			// (spellings a tolerant parser might accept one day — BASH, sh — are left out: the
 			// property does not settle them)
-			args = append(args, "-t", rng.Pick([]string{"powershell", "", "python", "bash,batch", "--help", "-h", "--version", "-v", "help", "-t", "--type", "all", "*"}))
+			bad := rng.Pick([]string{"powershell", "", "python", "bash,batch", "help", "all", "*"})
+			if rng.Chance(50) {
+				bad = rng.Pick([]string{"--help", "-h", "--version", "-v", "-t", "--type", "-?", "/?"}) // (a value is a value, however it is spelled)
+			}
+			if at := 1 + 2*rng.Intn((len(args)-1)/2+1); rng.Chance(50) && at < len(args) {
+				// not only as the last pair
+				args = append(args[:at:at], append([]string{rng.Pick([]string{"-t", "--type"}), bad}, args[at:]...)...)
+			} else {
+				args = append(args, rng.Pick([]string{"-t", "--type"}), bad)
+			}
 			inv.Why = "unknown type"
 		case 2, 3, 4:
 			drop := rng.Pick([]string{"-i", "-o", "-t"})
